@@ -114,6 +114,7 @@ type Forbid struct {
 	Pkgs    []string // forbidden callee packages
 	Funcs   []string // forbidden callee functions (ssa keys)
 	Except  []string // functions of this package that are exempt
+	Writes  []string // Type.Field: fields that only exempt functions may write
 	File    string
 	Line    int
 }
@@ -303,7 +304,7 @@ func (cs *ContractSet) loadFile(path, pkg string) error {
 			mode := ""
 			for _, f := range strings.Fields(rest) {
 				switch f {
-				case "props", "pkg", "func", "except":
+				case "props", "pkg", "func", "except", "write":
 					mode = f
 				default:
 					switch mode {
@@ -315,6 +316,10 @@ func (cs *ContractSet) loadFile(path, pkg string) error {
 						fb.Funcs = append(fb.Funcs, strings.Trim(f, ","))
 					case "except":
 						fb.Except = append(fb.Except, strings.Trim(f, ","))
+					case "write":
+						// `forbid props Cxx write Type.Field ... except F G`: only the exempt functions may
+						// store to (or take the address of) these fields
+						fb.Writes = append(fb.Writes, strings.Trim(f, ","))
 					}
 				}
 			}
@@ -508,8 +513,10 @@ func addClause(c *Contract, text string, line int) error {
 		}
 		for _, part := range splitTop(rest, ',') {
 			part = strings.TrimSpace(part)
-			if part == "*" {
-				c.Modifies = append(c.Modifies, &Clause{Text: "*", Line: line})
+			if part == "*" || part == "$client" {
+				// `$client`: everything except the change history's own objects (C20); treated as `*`
+				// for the function's own frame check
+				c.Modifies = append(c.Modifies, &Clause{Text: part, Line: line})
 				continue
 			}
 			e, err := ParseExpr(strings.TrimSuffix(strings.ReplaceAll(part, "[*]", "[0]"), ".*"))
